@@ -52,7 +52,10 @@ def state_rater_product():
                  ("R_et", "R_et_ldaF"), ("R_et", "R_et_lda"),
                  ("R_et", "R_et_names"), ("R_et", "R_rf"),
                  ("R_et", "R_et_mem"), ("R_rf", "R_rf_dir"),
-                 ("R_svr", "R_svrl"), ("R_et", "R_none")):
+                 ("R_svr", "R_svrl"), ("R_et", "R_none"),
+                 ("R_et_names_con", "R_et_names"),
+                 ("R_et_names_con", "R_et_names_bin"),
+                 ("R_et_names", "R_et_names_bin")):
         for x, y in ((a, b), (b, a)):
             out.append(list(fitted) + [{"op": "rate", "rater": x},
                                        {"op": "rate", "rater": y},
